@@ -218,7 +218,7 @@ func EstimateVirtualSize(numP2PKHIns, numP2TRIns, numP2WPKHIns, numNestedP2WPKHI
 	baseSize := 8 +
 		wire.VarIntSerializeSize(
 			uint64(numP2PKHIns+numP2TRIns+numP2WPKHIns+numNestedP2WPKHIns)) +
-		wire.VarIntSerializeSize(uint64(len(txOuts))) +
+		wire.VarIntSerializeSize(uint64(outputCount)) +
 		numP2PKHIns*RedeemP2PKHInputSize +
 		numP2WPKHIns*RedeemP2WPKHInputSize +
 		numP2TRIns*RedeemP2TRInputSize +
